@@ -174,7 +174,10 @@ def mutate(rng, tgt):
             cand = sorted(x for x in s if x in SVCS)
             if cand:
                 n = rng.choice(cand)
-                d['svc'][n] = n + '1'
+                if rng.random() < 0.5:
+                    d['svc'][n] = n + '1'
+                else:
+                    d['svc'][n] = ('udp' if n.startswith('tcp') else 'tcp') + n[3:]          # same name, same port, the other protocol
         elif e == 'rule_member' and rules:
             r = rng.choice(rules)
             f = rng.choice(['src', 'dst'])
